@@ -150,3 +150,9 @@ def main(tier, seed):
                                    'metamorphic lock-step runs are a test of the implementation, not a proof'],
                       rule_extra='plus lock-step runs of the implementation under both settings (generated charts, '
                                  'shipped elevator_contract.yaml and microwave_with_contracts.yaml).', post=p)
+
+
+def replay(path):
+    import json
+    import icheck
+    return icheck.replay(path)
